@@ -16,7 +16,8 @@ RULE = (
     "verbatim): permutation (reverse / rotate / shuffle) of the entries of every TST.TableDataList; re-chunking of every archive; zip "
     "member order and stored/deflated per member; single file <-> package folder (Index.zip + loose files); per-row switch between "
     "byte and 4-byte-unit cell offsets where representable; explicit zero-cell header records added for a subset of rows without one "
-    "(in index order and appended). Oracle: snapshot(Document(T(F))) == snapshot(Document(F)) (names, dimensions, per cell class, "
+    "(in index order and appended); row records of rows whose cells are all plain empty removed from their tile, numrows set to the record count "
+    "as Numbers does (fixtures, generated documents and API-built tables of 257..600 rows with blank rows inside and at the edges of tiles). Oracle: snapshot(Document(T(F))) == snapshot(Document(F)) (names, dimensions, per cell class, "
     "value, formatted value, formula, merge state, bullets, background image) and opening T(F) emits no warning that F does not; for API-generated "
     "documents the written grid must also be read back from T(F) (absolute oracle). Non-trivial: the transformation changed an "
     "object the reader consults (a list with >= 2 entries permuted, a row re-encoded, a header added, an archive re-chunked); "
@@ -34,6 +35,7 @@ SINGLE_PLANS = [
     {"container": "package"}, {"container": "package", "deflate": True},
     {"offsets": "flip"}, {"offsets": "narrow"}, {"offsets": "mixed"},
     {"empty_row_headers": "sorted"}, {"empty_row_headers": "appended"},
+    {"drop_empty_rows": "all"},
 ]
 
 plans = st.fixed_dictionaries({}, optional={
@@ -45,6 +47,7 @@ plans = st.fixed_dictionaries({}, optional={
     "container": st.sampled_from(["package", "file"]),
     "offsets": st.sampled_from(["flip", "narrow", "wide", "mixed"]),
     "empty_row_headers": st.sampled_from(["sorted", "appended"]),
+    "drop_empty_rows": st.sampled_from(["some", "all"]),
     "salt": st.integers(0, 10**6),
 })
 
@@ -69,6 +72,9 @@ def check_rewrite(ctx, case, src=None, base_snap=None):
             elif "wide" in case:
                 src = tmp / "base.numbers"
                 build_wide(case["wide"]).save(src)
+            elif "tall" in case:
+                src = tmp / "base.numbers"
+                build_tall(case["tall"]).save(src)
             else:
                 with warnings.catch_warnings():
                     warnings.simplefilter("ignore")
@@ -92,14 +98,14 @@ def check_rewrite(ctx, case, src=None, base_snap=None):
         d = snapshot.diff(base_snap, snap)
         if d:
             keys = sorted(k for k, v in plan.items() if k not in ("salt", "comp") and v)
-            ctx.fail(("C06", "reads_differently", *keys[:4]), case, f"{case.get('fixture', 'wide table' if 'wide' in case else 'generated')} under plan {plan}: " + " | ".join(d[:4]))
+            ctx.fail(("C06", "reads_differently", *keys[:4]), case, f"{case.get('fixture', 'wide table' if 'wide' in case else 'tall table' if 'tall' in case else 'generated')} under plan {plan}: " + " | ".join(d[:4]))
         if warn != base_warn:
             ctx.fail(("C06", "new_warning"), case, f"rewritten file warns {warn}, original {base_warn}")
         for k, v in stats.items():
             ctx.count(k, v)
-        effective = any(stats.get(k) for k in ("lists_permuted", "rows_reencoded", "empty_row_headers_added", "archives_rechunked", "members_shuffled", "as_package"))
+        effective = any(stats.get(k) for k in ("lists_permuted", "rows_reencoded", "empty_row_headers_added", "row_records_dropped", "archives_rechunked", "members_shuffled", "as_package"))
         if effective:
-            ctx.nt((case.get("fixture") or case.get("recipe"), plan))
+            ctx.nt((case.get("fixture") or case.get("recipe") or repr(case.get("wide") or case.get("tall")), plan))
         else:
             ctx.count("plan_without_effect")
         ctx.count("rewrites")
@@ -127,6 +133,22 @@ def build_wide(spec):
     return doc
 
 
+def build_tall(spec):
+    """A table of several tiles in which some rows, also inside the first tile, hold nothing: Numbers keeps no row record for such a
+    row, so every later record of the tile, and the tiles after it, must be placed by their stored indices, not by counting records."""
+    from numbers_parser import Document
+
+    doc = Document(num_rows=spec["rows"], num_cols=3, num_header_rows=0, num_header_cols=0)
+    t = doc.sheets[0].tables[0]
+    blank = set(spec["blank"])
+    for r in range(spec["rows"]):
+        if r in blank:
+            continue
+        t.write(r, 0, f"ROW{r}")
+        t.write(r, 2, r + 0.25)
+    return doc
+
+
 QUICK_FIXTURES = ["issue-43.numbers", "test-issue-75.numbers", "test-1.numbers", "issue-66-collab.numbers", "test-empty-rows.numbers", "test-bullets.numbers", "test-formats.numbers", "issue-14.numbers",
                   "test-new-formulas.numbers", "test-save-1.numbers", "issue-42.numbers", "test-issue-76.numbers", "create-formulas.numbers", "issue-77.numbers"]
 
@@ -138,8 +160,11 @@ def tasks(tier, seed):
     for name in names:
         t.append(("fixture", {"fixture": name, "singles": (name not in big), "n": 3 if tier == "quick" else (6 if name in big else 40), "seed": derive_seed(seed, "c06", name)}))
     t.append(("wide", {"rows": 2, "cols": 1000}))
+    t.append(("tall", {"rows": 300, "blank": [0, 7, 8, 200, 255, 256, 290]}))
     if tier != "quick":
         t.append(("wide", {"rows": 3, "cols": 900}))
+        t.append(("tall", {"rows": 600, "blank": [3, 255, 257, 300, 511, 512, 599]}))
+        t.append(("tall", {"rows": 257, "blank": [100]}))
     for k in range(8 if tier == "quick" else 16):
         t.append(("generated", {"n": 2 if tier == "quick" else 10, "per": 5 if tier == "quick" else 12, "seed": derive_seed(seed, "c06g", k)}))
     return t
@@ -165,6 +190,9 @@ def run_task(ctx, lane, **kw):
     elif lane == "wide":
         for offsets in ("narrow", "mixed"):
             check_rewrite(ctx, {"lane": "rewrite", "wide": {"rows": kw["rows"], "cols": kw["cols"]}, "plan": {"offsets": offsets, "salt": 1}})
+    elif lane == "tall":
+        for mode in ("all", "some"):
+            check_rewrite(ctx, {"lane": "rewrite", "tall": {"rows": kw["rows"], "blank": kw["blank"]}, "plan": {"drop_empty_rows": mode, "salt": 2}})
     elif lane == "generated":
         def body(recipe):
             tmp = Path(tempfile.mkdtemp(prefix="vf_c06g_"))
@@ -196,4 +224,4 @@ def run_task(ctx, lane, **kw):
 
 
 def check_case(ctx, case):
-    check_rewrite(ctx, {k: v for k, v in case.items() if k in ("lane", "fixture", "recipe", "plan", "wide")})
+    check_rewrite(ctx, {k: v for k, v in case.items() if k in ("lane", "fixture", "recipe", "plan", "wide", "tall")})
